@@ -713,6 +713,10 @@ RENAMES = {
     "set_axis-name-own-copy": (2, "set_axis-copy", ("x1", 1), ("x0", "x1")),
     "set_axis-name-collision-inplace": (2, "set_axis-inplace", ("x1", 0), None),
     "set_axis-name-collision-copy": (2, "set_axis-copy", ("x0", "x1"), None),
+    "axes-setitem-same-name": (2, "axes-setitem", ("x0", 0), ("x0", "x1")),
+    "axes-setitem-renaming-by-name": (2, "axes-setitem", ("u", "x1"), ("x0", "u")),
+    "axes-setitem-collision": (2, "axes-setitem", ("x1", 0), None),
+    "axes-setitem-collision-by-name": (3, "axes-setitem", ("x0", "x2"), None),
     "axis-name-setter-fresh": (2, "axis-name", ("u", 0), ("u", "x1")),
     "axis-name-setter-collision": (2, "axis-name", ("x1", 0), None),
 }
@@ -720,7 +724,8 @@ RENAMES = {
 
 class Rename(Contract):
     """Renaming dimensions -- a.dims = names (tuple / list: all at once, so that a permutation of the present names is a
-    permutation; dict: old -> new), a.set_axis(name=..., axis=..., inplace=...), a.axes[i].name = n --: either the request
+    permutation; dict: old -> new), a.set_axis(name=..., axis=..., inplace=...), a.axes[k] = Axis(labels, name),
+    a.axes[i].name = n --: either the request
     names every dimension with distinct non-empty strings, and then the array (the returned copy for inplace=False) is
     well-formed with exactly the requested names in order, its labels, values and metadata as they were; or it does not
     (a duplicate, a collision with another dimension, an empty name, a wrong count), and then an exception is raised and
@@ -758,6 +763,11 @@ class Rename(Contract):
             return arr
         if how == "set_axis-copy":
             return arr.set_axis(name=arg[0], axis=arg[1], inplace=False)
+        if how == "axes-setitem":
+            # a.axes[k] = Axis(same labels, another name): replaces the axis object
+            pos = arg[1] if isinstance(arg[1], int) else list(arr.dims).index(arg[1])
+            arr.axes[arg[1]] = env["S"].da.Axis(env["labels"][pos].copy(), arg[0])
+            return arr
         arr.axes[arg[1]].name = arg[0]
         return arr
 
